@@ -88,9 +88,29 @@ var v1, _ = qrdec.Version_GetVersionForNumber(1)
 
 // c15ECINumber feeds ECI designator `val` (in every admissible length form) followed by a byte segment.
 func c15ECINumber(r *fw.Rec, val int, libRegistered map[int]bool) bool {
+	if !c15ECINumberAfter(r, val, libRegistered, false) {
+		return false
+	}
+	// the same designator as the SECOND one of a symbol, after a registered one with its own
+	// byte segment: what was in effect before must not decide how this one is treated
+	return val >= 4096 && val%7 != 0 || c15ECINumberAfter(r, val, libRegistered, true)
+}
+
+func c15ECINumberAfter(r *fw.Rec, val int, libRegistered map[int]bool, second bool) bool {
 	e := c15FindEntry(val)
 	for _, form := range eciForms(val) {
 		var w bitw
+		prefix := ""
+		if second {
+			w.put(0x7, 4)
+			w.put(9, 8) // ISO-8859-7
+			w.put(0x4, 4)
+			w.put(2, 8)
+			w.put(0xE1, 8)
+			w.put(0xE2, 8)
+			prefix = "\u03b1\u03b2"
+			r.Tally("eci_as_second_designator_of_a_symbol")
+		}
 		w.put(0x7, 4)
 		w.put(form[0], form[1])
 		payload, want := []byte("Az"), "Az"
@@ -115,8 +135,8 @@ func c15ECINumber(r *fw.Rec, val int, libRegistered map[int]bool) bool {
 				r.Violation("model-mismatch", "qr.parser:eci:registered-value-rejected", fmt.Sprintf("ECI %d (%s, %d-bit form) rejected: %v", val, e.Name, form[1], err), info)
 				return false
 			}
-			if res.GetText() != want {
-				r.Violation("model-mismatch", "qr.parser:eci:wrong-charset-applied", fmt.Sprintf("ECI %d (%s): bytes %x decoded as %q, expected %q", val, e.Name, payload, res.GetText(), want), info)
+			if res.GetText() != prefix+want {
+				r.Violation("model-mismatch", "qr.parser:eci:wrong-charset-applied", fmt.Sprintf("ECI %d (%s): bytes %x decoded as %q, expected %q", val, e.Name, payload, res.GetText(), prefix+want), info)
 				return false
 			}
 			r.Tally("eci_registered_decoded")
@@ -137,6 +157,9 @@ func c15ECINumber(r *fw.Rec, val int, libRegistered map[int]bool) bool {
 			r.Tally("eci_unregistered_format_error")
 		}
 		r.Tally(fmt.Sprintf("eci_form_%dbit", form[1]))
+	}
+	if second {
+		return true
 	}
 	// registry lookup consistency
 	ent, err := common.GetCharacterSetECIByValue(val)
@@ -455,6 +478,34 @@ func c15(c *fw.Ctx) {
 	} else {
 		c.Exhaustive("every two-byte code of Shift_JIS, Big5, GB18030 (two-byte area) and EUC-KR that round-trips through the codec; Shift_JIS in byte mode and in Kanji mode")
 	}
+	// hinted byte text that fills a version exactly (the ECI header takes 12 bits of it), and one
+	// to three bytes less: representable text that fits must be written
+	for v := 1; v <= 40; v++ {
+		v := v
+		c.Run(fmt.Sprintf("hinted-capacity/%d", v), func(r *fw.Rec) {
+			rng := r.Rng
+			capH := qrref.CapacityWithHeader(v, qrref.M, qrref.Byte, 12)
+			for _, n := range []int{capH, capH - 1, capH - 2, capH - 3} {
+				if n < 2 {
+					continue
+				}
+				e := &csTable[rng.Intn(len(csTable))]
+				if e.Kind != 0 {
+					e = &csTable[1]
+				}
+				rep := csRepertoire(e)
+				rs := []rune{rune('a' + rng.Intn(26))}
+				for len(rs) < n {
+					rs = append(rs, rep[rng.Intn(len(rep))])
+				}
+				if !c15Hinted(r, e, e.Name, string(rs), "hinted-capacity") {
+					return
+				}
+				r.Tally("hinted_texts_at_version_capacity")
+			}
+			r.Nontrivial(fmt.Sprintf("hinted-capacity/%d", v))
+		})
+	}
 	// not representable -> refused
 	c.Run("refuse", func(r *fw.Rec) {
 		for i := range csTable {
@@ -769,12 +820,14 @@ func c15(c *fw.Ctx) {
 	c.Floor("hinted_byte_mode_with_eci", 500)
 	c.Floor("unrepresentable_refused", 20)
 	c.Floor("eci_registered_decoded", 20)
+	c.Floor("eci_as_second_designator_of_a_symbol", 1000)
 	c.Floor("eci_unregistered_format_error", 1000)
 	c.Floor("decode_hint_honoured", 30)
 	c.Floor("decode_hint_honoured_adversarial_payloads", 400)
 	c.Floor("utf8_nohint_kind_7", 100)
 	c.Floor("utf8_nohint_kind_8", 100)
 	c.Floor("utf16be_ascii_only_texts", 50)
+	c.Floor("hinted_texts_at_version_capacity", 140)
 	c.Floor("double_byte_codes_covered_Shift_JIS", 6000)
 	c.Floor("double_byte_codes_covered_Big5", 3000)
 	c.Floor("double_byte_codes_covered_GB18030", 5000)
